@@ -443,14 +443,16 @@ def runCurve {α : Type} (D : FieldDesc α) (op variant : String) (args : List S
             else [("mulWindowed", mulWindowed O s p)]
           let m3 := if small s then [("smul", C.E.smul s p)] else []
           checked C want (m1 ++ m3)
-      | "jointbig", [e1, P, e2, Q, s1, s2] | "joint", [e1, P, e2, Q, s1, s2] =>
+      | "jointx", [e1, P, e2, Q, s1, s2] | "jointbig", [e1, P, e2, Q, s1, s2] | "joint", [e1, P, e2, Q, s1, s2] =>
         match ctxPoint D C e1 P, ctxPoint D C e2 Q with
         | some (ee1, p), some (ee2, q) =>
           if !(variant == "gen" || (variant == "base" && ee1 == 1)) then "bad-op" else
           let s1 := parseInt s1; let s2 := parseInt s2
           let want := expected C (s1 * ee1 + s2 * ee2)
           let m3 := if small s1 && small s2 then [("smul", C.E.add (C.E.smul s1 p) (C.E.smul s2 q))] else []
-          checked C want ([("jointScalarMul", jointScalarMul O C.r s1 s2 p q)] ++ m3)
+          -- `jointx`: specification value only (scalars far outside [0, r): one short multiplication per line)
+          let m1 := if op == "jointx" then [] else [("jointScalarMul", jointScalarMul O C.r s1 s2 p q)]
+          checked C want (m1 ++ m3)
         | _, _ => "bad-point"
       | "batch", [e, P, ss] =>
         match ctxPoint D C e P with
@@ -537,7 +539,7 @@ def handle (args : List String) : String :=
     if ["aff", "proj", "ext"].contains variant then runTE false true rest else "bad-op"
   | "tecurve" :: _ :: _curve :: rest => runTE true false rest
   | op :: variant :: _curve :: _grp :: fld :: rest =>
-    if !(["curve", "sm", "smx", "joint", "jointbig", "batch", "batchpow"].contains op) then "bad-op" else
+    if !(["curve", "sm", "smx", "joint", "jointbig", "jointx", "batch", "batchpow"].contains op) then "bad-op" else
     match splitOn fld ':' with
     | ["fp", p] => runCurve (fdFp (parseHexD p)) op variant rest
     | ["fp2", p, β] => runCurve (fdFp2 (parseHexD p) (parseHexD β)) op variant rest
